@@ -13,7 +13,7 @@ import z3
 
 from . import extract, solve
 from .sym import (V, VInt, VBool, VStr, VBytes, VFloat, VNone, NONE, VTuple, VList, VSeq, VMap, VSet,
-                  VDictLit, VConc, VInst, VOpaque, VFunc, VBoundExt, VUnion, VUnknown,
+                  VDictLit, VConc, VInst, VOpaque, VFunc, VBoundExt, VUnion, VUnknown, VInstDict,
                   lift, concrete_of, zand, zor, znot, mk_str)
 
 
@@ -315,9 +315,12 @@ class Exec(object):
             return a.t == b.t
         if isinstance(a, VFunc):
             return z3.BoolVal(a.node is b.node and a.bound is b.bound)
-        if isinstance(a, (VInt, VStr, VBytes)):
-            # identity of immutables: only decided when they are small ints / equal terms
-            raise Unsupported("'is' on int/str")
+        if isinstance(a, (VStr, VBytes)):
+            # identity of strings: implies equality; equal strings may or may not be the same object
+            b_ = z3.Bool('same_object!%d' % path.fresh())
+            return z3.And(a.t == b.t, b_)
+        if isinstance(a, VInt):
+            raise Unsupported("'is' on int")
         raise Unsupported('is on %r' % (a,))
 
     def seq_of(self, path, v, like=None):
@@ -426,6 +429,8 @@ class Exec(object):
             hook = self.models.attr_hook(self, path, obj, name)
             if hook is not None:
                 return hook
+            if name == '__dict__' and (isinstance(obj, VInst) or not isinstance(obj.obj, (type, types.ModuleType))):
+                return [(path, VInstDict(obj))]
             try:
                 oid = self.oid_of(obj)
             except Unsupported:
@@ -926,6 +931,14 @@ class Exec(object):
             from .sym import TOpt
             opt = TOpt(c.vt)
             return [(path, znot(opt.is_none(z3.Select(c.t, k))))]
+        if isinstance(c, VInstDict):
+            ok, k = concrete_of(item)
+            if ok and isinstance(k, str):
+                key = ('f', self.oid_of(c.inst), k)
+                present = (key in path.heap and path.heap[key] is not _DELETED) or (
+                    key not in path.heap and isinstance(c.inst, VConc) and k in getattr(c.inst.obj, '__dict__', {}))
+                return [(path, z3.BoolVal(present))]
+            raise Unsupported('in __dict__ with symbolic key')
         if isinstance(c, VDictLit):
             pairs = path.heap[('dict', c.did)]
             return [(path, zor(*[self.eq_term(path, item, k) for k, _ in pairs]))]
@@ -1145,6 +1158,16 @@ class Exec(object):
                     if rest is not None:
                         out.extend(self.raise_(rest, KeyError, i))
                     return out
+        if isinstance(o, VInstDict):
+            ok, k = concrete_of(i)
+            if ok and isinstance(k, str):
+                key = ('f', self.oid_of(o.inst), k)
+                if key in path.heap and path.heap[key] is not _DELETED:
+                    return [(path, path.heap[key])]
+                if isinstance(o.inst, VConc) and k in getattr(o.inst.obj, '__dict__', {}):
+                    return [(path, self.lift_obj(o.inst.obj.__dict__[k]))]
+                return self.raise_(path, KeyError, i)
+            raise Unsupported('__dict__ with symbolic key')
         r = self.models.index(self, path, o, i)
         if r is not None:
             return r
@@ -1694,6 +1717,12 @@ class Exec(object):
         raise Unsupported('assign target %s' % type(tgt).__name__)
 
     def setitem(self, path, o, i, v, tgt=None, fr=None):
+        if isinstance(o, VInstDict):
+            ok, k = concrete_of(i)
+            if ok and isinstance(k, str):
+                path.heap[('f', self.oid_of(o.inst), k)] = v
+                return [(path, None)]
+            raise Unsupported('__dict__ store with symbolic key')
         if isinstance(o, VDictLit):
             pairs = list(path.heap[('dict', o.did)])
             # concrete spine: need to decide key equality
@@ -1764,6 +1793,13 @@ class Exec(object):
                                 nxt.append((p3, 'raise', i.exc))
                                 continue
                             for p4, o2 in self.split(p3, o):
+                                if isinstance(o2, VInstDict):
+                                    ok, k = concrete_of(i)
+                                    if not ok:
+                                        raise Unsupported('del __dict__[symbolic]')
+                                    p4.heap[('f', self.oid_of(o2.inst), k)] = _DELETED
+                                    nxt.append((p4, 'next', None))
+                                    continue
                                 r = self.models.delitem(self, p4, o2, i, tgt, fr)
                                 if r is None:
                                     raise Unsupported('del item on %r' % (o2,))
